@@ -126,6 +126,8 @@ pub fn fence_programs() -> Vec<(String, AProg)> {
 }
 
 /// Label-focused programs for C23: mixed case, several labels per statement, repeated labels at one address, labels on .end, externals.
+/// valid label names that look like something else
+pub const LOOKALIKE: [&str; 40] = ["B0", "B1", "b10", "B101", "b2", "O7", "o17", "D9", "d10", "H1F", "Q7", "ADDX", "BRX", "BRNZPX", "NOPE", "ENDX", "HALTS", "RETURN", "RR", "XG", "XYZ", "PC", "N", "Z", "P", "NZP", "FILL", "BLKW", "END", "ORIG", "STRINGZ", "EXTERNAL", "GETCH", "TRAPX", "_1", "A1B2", "E5", "F", "AF", "R"];
 pub fn label_programs() -> Vec<(String, AProg)> {
     let mut v = vec![];
     // several labels on one statement, one of them (first / middle / last, same or other letter case) declared again at another address
@@ -204,6 +206,8 @@ pub struct Families {
     /// programs whose labels contain non-ASCII letters (spelled identically everywhere) and their single faults
     pub uni: Vec<(String, AProg)>,
     pub big: Vec<(String, AProg)>,
+    /// every alphanumeric Unicode scalar value that has a different upper- or lower-case form (all cased letters, incl. the title-case ones)
+    pub case_chars: Vec<char>,
 }
 impl Families {
     pub fn new() -> Self {
@@ -216,7 +220,7 @@ impl Families {
         ];
         let mut uni = vec![];
         for (k, b) in uni_base.iter().enumerate() { uni.push((format!("unicode {k}"), b.clone())); for (d, p) in faults(b) { uni.push((format!("unicode {k}: {d}"), p)); } }
-        Families { uni, big: big_programs(), l1: single_statements(), lim: offset_limit_programs(), blk: block_layouts(), base, fence: fence_programs(), lab: label_programs(), f1 }
+        Families { case_chars: (0u32..0x110000).filter_map(char::from_u32).filter(|c| c.is_alphanumeric() && (c.to_uppercase().ne(std::iter::once(*c)) || c.to_lowercase().ne(std::iter::once(*c)))).collect(), uni, big: big_programs(), l1: single_statements(), lim: offset_limit_programs(), blk: block_layouts(), base, fence: fence_programs(), lab: label_programs(), f1 }
     }
     pub fn len(&self, fam: &str) -> u64 {
         match fam {
@@ -226,6 +230,8 @@ impl Families {
             "FENCE" => self.fence.len() as u64, "LAB" => self.lab.len() as u64, "F1" => self.f1.len() as u64, "UNI" => self.uni.len() as u64, "BIG" => self.big.len() as u64,
             "F2" => (self.f1.len() as u64) * 400,
             "STR" => 1 + 12 + 144 + 1728 + 20736,
+            "CASE" => self.case_chars.len() as u64 * 4,
+            "NAMES" => (LOOKALIKE.len() * 9 * 2) as u64,
             _ => 0,
         }
     }
@@ -247,6 +253,26 @@ impl Families {
                 let mut lit = String::new();
                 for _ in 0..len { lit.push(A[(k % 12) as usize]); k /= 12; }
                 Some(block(0x3000, vec![lst("S", Nuc::Stringz(lit)), st(Nuc::Lea(0, lab("S")))]))
+            }
+            // label names whose spelling resembles another token class (numeric notations of other assemblers, mnemonic/directive/register
+            // look-alikes), in every label-operand position, defined before and after the use
+            "NAMES" => {
+                let name = *LOOKALIKE.get((i / 18) as usize)?;
+                let use_ = match i % 9 { 0 => Nuc::Br(7, lab(name)), 1 => Nuc::Ld(1, lab(name)), 2 => Nuc::Lea(2, lab(name)), 3 => Nuc::Jsr(lab(name)), 4 => Nuc::Fill(FillOp::Lab(name.to_string())), 5 => Nuc::St(3, lab(name)), 6 => Nuc::Ldi(4, lab(name)), 7 => Nuc::Sti(5, lab(name)), _ => Nuc::Br(2, lab(name)) };
+                Some(if i / 9 % 2 == 0 { block(0x3000, vec![st(Nuc::Halt), lst(name, Nuc::Add(0, 0, RoI::Reg(0))), st(Nuc::Halt), st(use_)]) } else { block(0x3000, vec![st(use_), st(Nuc::Halt), st(Nuc::Halt), lst(name, Nuc::Fill(FillOp::Num(7)))]) })
+            }
+            // label spellings that differ only by the case of one letter, for every cased letter of Unicode: defined in one spelling and used
+            // (or defined again elsewhere) in its upper-/lower-case spelling
+            "CASE" => {
+                let c = *self.case_chars.get((i / 4) as usize)?;
+                let d = format!("L{c}");
+                let (u, l) = (d.to_uppercase(), d.to_lowercase());
+                Some(match i % 4 {
+                    0 => block(0x3000, vec![lst(&d, Nuc::Add(0, 0, RoI::Reg(0))), lst("OTHER", Nuc::Fill(FillOp::Lab(u)))]),
+                    1 => block(0x3000, vec![lst(&d, Nuc::Add(0, 0, RoI::Reg(0))), lst("OTHER", Nuc::Fill(FillOp::Lab(l)))]),
+                    2 => block(0x3000, vec![lst(&d, Nuc::Halt), st(Nuc::Halt), lst(&u, Nuc::Halt)]),
+                    _ => block(0x3000, vec![lst(&l, Nuc::Ld(1, lab(&d))), st(Nuc::Halt), lst(&u, Nuc::Halt)]),
+                })
             }
             "F2" => { let b = self.f1.get((i / 400) as usize)?; if b.1.len() > 9 { return None; } let fs = faults(&b.1); fs.get((i % 400) as usize * (fs.len() / 400).max(1)).map(|x| x.1.clone()) }
             _ => None,
